@@ -47,6 +47,8 @@ ABS_FORMS = [
     ("from-sub-of-ancestor", "from top.c import t", {"t"}, set()),
     ("from-sub", "from top.c.p import s", {"p.s"}, {"p"}),
     ("from-sub-as-and-name", "from top.c.p import s as z, name", {"p.s", "p"}, set()),
+    ("from-two-subs", "from top.c.p import s, s2", {"p.s", "p.s2"}, {"p"}),
+    ("from-sub-then-other-package-sub", "from top.c import t, p", {"t", "p"}, set()),
     ("from-star", "from top.c.p import *", {"p"}, set()),
     ("from-sub-nsp", "from top.c.q import u", {"q.u"}, {"q"}),
     # external names that also exist as internal module names directly below the root: no internal edge
@@ -59,6 +61,7 @@ REL_FORMS = [
     ("rel-import-two", "from {L} import t, name", {"t"}, set()),
     ("rel-from-name", "from {L}t import name", {"t"}, set()),
     ("rel-from-sub", "from {L}p import s", {"p.s"}, {"p"}),
+    ("rel-from-two-subs", "from {L}p import s, s2", {"p.s", "p.s2"}, {"p"}),
     ("rel-from-deep", "from {L}p.s import name", {"p.s"}, set()),
     ("rel-from-star", "from {L}p import *", {"p"}, set()),
 ]
@@ -87,6 +90,7 @@ BASE_FILES = {
     "top/c/t.py": "name = 1\n",
     "top/c/p/__init__.py": "name = 1\n",
     "top/c/p/s.py": "name = 1\n",
+    "top/c/p/s2.py": "name = 1\n",
     "top/c/q/u.py": "",
     "top/c/d/__init__.py": "",
     "top/os.py": "",
